@@ -22,7 +22,7 @@ RULE = (
     "Exhaustive fault enumeration against an in-process HTTP mock (responses): data-URL response "
     "scripts of length <=3 (thorough: <=4, plus a truncated-body fault 't' and body sizes "
     "0,1,1023,1024,1025,2048,5000 around the 1024-byte stream chunk) over {g=correct body, "
-    "c=corrupted body, 4=HTTP 404} x checksum behaviour, both constant {o=correct, w=wrong, "
+    "c=corrupted body, e=empty 200 body, 4=HTTP 404} x checksum behaviour, both constant {o=correct, w=wrong, "
     "m=unavailable} and scripted sequences of length <=3 over the same alphabet x prior target "
     "file {absent, valid, corrupt}. Requests beyond a script's end answer HTTP 500 (data) / 404 "
     "(checksum). HEAD is unregistered (size probe fails as offline). Oracle: a reference model of "
@@ -46,7 +46,7 @@ def _scripts(alphabet, maxlen):
 
 
 def _cases(th):
-    dalpha = 'gct4' if th else 'gc4'
+    dalpha = 'gcte4' if th else 'gce4'
     sizes = [0, 1, 1023, 1024, 1025, 2048, 5000] if th else [5000]
     for size in sizes:
         L = 4 if (th and size == 1024) else 3
@@ -100,7 +100,7 @@ def _model(case, good, corrupt, trunc):
     def next_data():
         log['data'] += 1
         d = data.pop(0) if data else 'X'
-        return {'g': good, 'c': corrupt, 't': trunc}.get(d)
+        return {'g': good, 'c': corrupt, 't': trunc, 'e': b''}.get(d)
 
     content = {'absent': None, 'valid': good, 'corrupt': corrupt}[case['prior']]
     if content is not None:
@@ -138,6 +138,8 @@ def check(case):
             return (200, {}, corrupt)
         if d == 't':
             return (200, {}, trunc)
+        if d == 'e':
+            return (200, {}, b'')
         if d == '4':
             return (404, {}, b'not found')
         seen['exhausted'] = True
@@ -210,7 +212,7 @@ def classify(case, info):
     labels = ['outcome:' + info['outcome'], 'prior:' + case['prior'], 'datareq:%d' % info['data']]
     nt = False
     d = case['data']
-    if 'cg' in d or 'tg' in d or '4g' in d:
+    if 'cg' in d or 'tg' in d or '4g' in d or 'eg' in d:
         labels.append('recovering-script')
         nt = True
     if case['ckind'] == 'script' and len(set(case['ck'])) > 1:
